@@ -287,8 +287,12 @@ func check(args []string) {
 		fmt.Println(l)
 	}
 	fmt.Printf("%s %s: %d/%d obligations discharged over %d functions in %.1fs\n", *prop, *tier, discharged, total, len(funcs), time.Since(t0).Seconds())
+	printed := map[string]bool{}
 	for _, l := range vioLines {
-		fmt.Println(l)
+		if !printed[l] {
+			printed[l] = true
+			fmt.Println(l)
+		}
 	}
 	if violations > 0 {
 		os.Exit(1)
